@@ -3,10 +3,12 @@ pub mod trace {
 //@include air/trace_config.rs
 //@include air/trace_mod.rs
 } // mod trace
+//@include air/consts.rs
 //@include air/domains.rs
 //@include air/types.rs
 //@include air/dynamic.rs
 //@include air/public_memory.rs
+//@include air/diluted.rs
 pub mod layout {
 //@include air/layout_mod.rs
 } // mod layout
